@@ -63,14 +63,25 @@ def run(project, chk):
     chk.floor("report file sinks (handle.write) in the builder modules", sinks, 2)
     # T1 verdicts
     per_fn = {}
+    from sa.taint import unreadable as _unreadable
+    unread = []
     for h in t.holes:
         fi = h["fi"]
         chk.saw_function(fi)
         per_fn[fi.short] = per_fn.get(fi.short, 0) + 1
         m = fi.module
+        if not h["ok"] and h["cls"].kind == "tainted" and _unreadable(h["cls"].why):
+            unread.append(h)        # not followed, rather than traced to a raw source: inconclusive unless something definite is found
+            continue
         chk.check(h["ok"], "T1", fi.short, "{" + h["expr"] + "} in " + h["context"], project.loc(m, h["node"]),
                   f"hole {{{h['expr']}}} in {h['context']} holds {h['cls']!r}",
                   how=f"value origin: {h['origin']}", message=f"{{{h['expr']}}} in {h['context']}: {h['why']} -- value is {h['cls']!r}, origin {h['origin']}")
+    if unread and not chk.findings:
+        h = unread[0]
+        raise AnalysisError(f"{project.loc(h['fi'].module, h['node'])} {h['fi'].short}: the value of {{{h['expr']}}} ({h['context']}) cannot be followed ({h['cls'].why}); "
+                            f"{len(unread)} hole(s) are neither shown safe nor traced to a raw source")
+    for h in unread:
+        chk.note(f"T1: {{{h['expr']}}} in {h['fi'].short} not followed ({h['cls'].why})")
     for short, floor in FLOORS.items():
         if chk.findings:
             break   # a reported violation already explains a changed hole count
